@@ -1,7 +1,8 @@
 ------------------------------ MODULE MPCliTrace ------------------------------
 (***************************************************************************)
 (* Validation of recorded CLI runs.  record ==                             *)
-(*  [id, outcome, lineno, nlines, exit, banner, message, arrow, arrowtext, traceback] *)
+(*  [id, outcome, lineno, lineok, nlines, exit, banner, message, arrow, arrowtext, traceback] *)
+(*  lineok: the error's line (if any) lies within the command known to be at fault   *)
 (*  outcome: what from_source+run did through the API on the same file     *)
 (*  ("ok" | "mpilot" | "syntax" | "other"), lineno its line (0 = none);     *)
 (*  exit: the tool's exit status; banner/message: stderr contains the      *)
@@ -16,6 +17,7 @@ Judge(t) ==
     IF t.outcome = "mpilot" /\ t.traceback THEN "C13.CliCrashed"
     ELSE IF t.outcome = "mpilot" /\ t.exit = 0 THEN "C13.CliExitZero"
     ELSE IF t.outcome = "mpilot" /\ ~(t.banner /\ t.message) THEN "C13.CliNoMessage"
+    ELSE IF t.outcome = "mpilot" /\ t.lineno > 0 /\ ~t.lineok THEN "C11.RuntimeErrorLine"          \* a line outside the offending command
     ELSE IF t.outcome = "mpilot" /\ t.lineno > 0 /\ t.lineno <= t.nlines /\ (t.arrow # t.lineno \/ ~t.arrowtext) THEN "C11.CliContextLine"
     ELSE IF t.outcome = "ok" /\ t.exit # 0 THEN "C13.CliFailedOnSuccess"
     ELSE "ok"
